@@ -18,6 +18,8 @@ def gen_case(rng, eq):
     c = dict(eq=eq, tmax=rng.choice(TMAX))
     if eq == "burgers":
         c.update(d=1, polys=[prand(rng, 2, 3, 4) or {(0, 0): 1}], pt=[dy(rng), dy(rng)], nus=[dy(rng)])
+        if rng.random() < 0.4:       # the network has an auxiliary first output; the solution is the component slice_solution designates
+            c["aux"] = prand(rng, 2, 3, 3) or {(1, 0): 2}
     elif eq == "fisher":
         d = rng.randint(1, 3)
         c.update(d=d, polys=[prand(rng, d + 1, 3, 4) or {(0,) * (d + 1): 1}], pt=[dy(rng) for _ in range(d + 1)], nus=[dy(rng), dy(rng), dy(rng)])
@@ -44,7 +46,11 @@ def gen_case(rng, eq):
     else:
         c.update(d=2, polys=[prand(rng, 2, 3, 3) or {(0, 0): 1} for _ in range(3)], pt=[dy(rng), dy(rng)],
                  nus=[rng.choice([1.0, 2.0, 0.5, 4.0, -2.0]), dy(rng)], tmax=1.0)
-    if rng.random() < 0.25:      # candidate solutions of very small / very large magnitude (powers of two: still exact)
+    # candidate solutions of very small / very large magnitude (powers of two). Only for the equations that are homogeneous in
+    # the unknown (Fokker-Planck, mass conservation: every term scales alike, binary64 stays exact) and for Lotka-Volterra
+    # (compared with a tolerance; d/dt log u does not depend on the scale); in Burgers / Fisher-KPP / Navier-Stokes terms of
+    # degree 1 and 2 would mix magnitudes 2^-40 and 2^-80 and the exact comparison would see rounding, not a defect
+    if eq in ("ou", "mass", "glv") and rng.random() < 0.4:
         s = 2.0 ** rng.choice([-40, -24, 24])
         c["polys"] = [{es: v * s for es, v in p.items()} for p in c["polys"]]
         c["scaled"] = True
@@ -57,7 +63,7 @@ def evaluate(c):
     eq, pt, nus = c["eq"], c["pt"], c["nus"]
     A = lambda v: jnp.array(float(v))
     if eq in ("burgers", "fisher", "ou"):
-        u = mk(c["polys"], "nonstatio_PDE")
+        u = mk(c["polys"], "nonstatio_PDE") if not c.get("aux") else mk([c["aux"], c["polys"][0]], "nonstatio_PDE", slice_solution=jnp.s_[1:2])
         t, x = jnp.array([pt[0]]), jnp.array(pt[1:])
         if eq == "burgers":
             L = jinns.loss.BurgerEquation(Tmax=c["tmax"]); eqp = {"nu": A(nus[0])}
@@ -71,8 +77,10 @@ def evaluate(c):
             L = jinns.loss.OU_FPENonStatioLoss2D(Tmax=c["tmax"])
             eqp = {"alpha": jnp.array(nus[0:2]) if c["vector_alpha"] else A(nus[0]), "mu": jnp.array(nus[2:4]), "sigma": jnp.array(nus[4:6])}
         P = Params(nn_params=u.init_params(), eq_params=eqp)
-        first = [float(v) for v in np.asarray(L.evaluate(t, x, u, P)).ravel()]
-        second = [float(v) for v in np.asarray(L.evaluate(t, x, u, P)).ravel()]       # the same objects again (eagerly)
+        # with an auxiliary first output the residual has one row per network output; the row of the solution component is compared
+        pick = (lambda a: np.asarray(a).ravel()[1:2]) if (eq == "burgers" and c.get("aux")) else (lambda a: np.asarray(a).ravel())
+        first = [float(v) for v in pick(L.evaluate(t, x, u, P))]
+        second = [float(v) for v in pick(L.evaluate(t, x, u, P))]       # the same objects again (eagerly)
         if first != second:
             c["_repeat_differs"] = (first, second)
         return second
@@ -142,16 +150,18 @@ def manufactured(rng, n):
 
 def jsonable(c):
     out = dict(c, polys=[[[list(k), v] for k, v in sorted(p.items())] for p in c["polys"]])
-    if c.get("het"):
-        out["het"] = [[list(k), v] for k, v in sorted(c["het"].items())]
+    for extra in ("het", "aux"):
+        if c.get(extra):
+            out[extra] = [[list(k), v] for k, v in sorted(c[extra].items())]
     out.pop("_repeat_differs", None)
     return out
 
 
 def unjson(c):
     out = dict(c, polys=[{tuple(k): v for k, v in p} for p in c["polys"]])
-    if c.get("het"):
-        out["het"] = {tuple(k): v for k, v in c["het"]}
+    for extra in ("het", "aux"):
+        if c.get(extra):
+            out[extra] = {tuple(k): v for k, v in c[extra]}
     return out
 
 
@@ -200,6 +210,8 @@ def replay(rep, casedir, variant):
     c = rep["case"]
     if c.get("what") == "manufactured":
         return dict(meta={}, oracle_violations=manufactured(random.Random(0), 40), evaluations=40, distinct_nontrivial=40, rule="replay", samples=[c])
+    if c.get("what") in ("terms", "impl_vs_impl", "residual", "vector operator"):       # oracle-only comparisons are regenerated from the seed of the run
+        return generate("quick", rep.get("seed", 0), casedir, variant)
     c = unjson(c)
     obs = evaluate(c)
     write_cases(casedir, "C02", "R_C02", variant, [case_term(0, c, obs)])
